@@ -4,6 +4,7 @@ import (
 	"os"
 	"os/exec"
 	"path/filepath"
+	"sync"
 	"syscall"
 
 	"github.com/tonistiigi/fsutil"
@@ -60,7 +61,7 @@ func runUnprivileged(entry string, in Sx, work string) Sx {
 	if err := os.WriteFile(inf, []byte(in.String()), 0644); err != nil {
 		panic(err)
 	}
-	exe, _ := os.Executable()
+	exe := c01ChildExe()
 	cmd := exec.Command(exe, "internal", entry, inf, outf, work)
 	cmd.SysProcAttr = &syscall.SysProcAttr{Credential: &syscall.Credential{Uid: unprivID, Gid: unprivID}}
 	if b, err := cmd.CombinedOutput(); err != nil {
@@ -75,6 +76,44 @@ func runUnprivileged(entry string, in Sx, work string) Sx {
 		panic(err)
 	}
 	return o
+}
+
+var (
+	c01ExeOnce sync.Once
+	c01ExePath string
+)
+
+// c01ChildExe returns a path of this executable that the unprivileged user can execute: the
+// executable itself when every ancestor directory is searchable by others, else a copy in a
+// world-searchable scratch directory (made once per process).
+func c01ChildExe() string {
+	c01ExeOnce.Do(func() {
+		exe, _ := os.Executable()
+		c01ExePath = exe
+		ok := true
+		for d := filepath.Dir(exe); d != "/" && d != "."; d = filepath.Dir(d) {
+			if fi, err := os.Stat(d); err != nil || fi.Mode().Perm()&0001 == 0 {
+				ok = false
+			}
+		}
+		if ok {
+			return
+		}
+		dir := WorkDir("c01-exe-")
+		if err := os.Chmod(dir, 0755); err != nil {
+			return
+		}
+		data, err := os.ReadFile(exe)
+		if err != nil {
+			return
+		}
+		cp := filepath.Join(dir, "vh")
+		if err := os.WriteFile(cp, data, 0755); err != nil {
+			return
+		}
+		c01ExePath = cp
+	})
+	return c01ExePath
 }
 
 func init() {
